@@ -502,6 +502,10 @@ def finish(run, in_fragment, findings_match):
         with open(path, "w") as f:
             json.dump({"property": prop, "mismatch": m}, f, indent=1)
         violations.append(path)
+    if getattr(run, "drift", None):
+        print("MODEL-DRIFT (not a verdict): the engine's cursor movements differ from the implementation-shaped model XQueryVM in "
+              "%d cases, e.g. %s ctx=%s (%s); update spec/XQueryVM.tla if the change is intended" %
+              (len(run.drift), run.drift[0].get("expr"), run.drift[0].get("ctx"), run.drift[0].get("fail")))
     for fid, (f, n) in sorted(observed.items()):
         print("KNOWN-FINDING: property=%s %s [%s, %d occurrences]" % (prop, f["what"], fid, n))
     for path in violations:
@@ -534,6 +538,8 @@ def write_evidence(run, nviol, observed, outside, flaky, extra=None):
         "outside_fragment_observations": outside,
         "unreproduced": flaky,
         "notes": run.notes,
+        "model_drift": {"count": len(getattr(run, "drift", [])),
+                        "samples": [{k: m.get(k) for k in ("expr", "ctx", "fail", "want", "got")} for m in getattr(run, "drift", [])[:5]]},
     }
     if extra:
         cov.update(extra)
